@@ -286,7 +286,8 @@ def worker(ctx, job):
                         {"engine": "fsx", "mode": "crash", "scenario": sc, "crash": None})
         snap = fsutil.snapshot(cache)
         content_check(ctx, res, snap, sc, "after the complete write", {"engine": "fsx", "mode": "crash", "scenario": sc, "crash": None})
-        res["probe"] = {"sc": sc, "steps": [{"sys": s["sys"], "len": s["len"], "path": fsx.norm_path((s["paths"] or [s.get("fd_path")])[0], [cache])} for s in rep["steps"] if s.get("step") is not None]}
+        res["probe"] = {"sc": sc, "steps": [{"sys": s["sys"], "len": s["len"], "path": fsx.norm_path((s["paths"] or [s.get("fd_path")])[0], [cache])} for s in rep["steps"] if s.get("step") is not None],
+                        "trace": fsx.sys_trace(rep, [cache])}
         fsutil.wipe(cache)
         return res
     for cp in job["crashes"]:
@@ -297,6 +298,8 @@ def worker(ctx, job):
         replay = {"engine": "fsx", "mode": "crash", "scenario": sc, "crash": cp}
         if rep["status"] != "ok":
             raise fsx.TracerError("crash run status %s: %s" % (rep["status"], rep.get("error")))
+        if job.get("trace"):
+            res["extra"]["prefix_checked_steps"] = res["extra"].get("prefix_checked_steps", 0) + fsx.assert_same_prefix(rep, job["trace"], cp["step"], [cache], "C03 %s/%s" % (sc["entry"], sc["flavour"]))
         snap = fsutil.snapshot(cache)
         key = fsutil.canon(snap)
         res["distinct"].add(key)
@@ -338,7 +341,7 @@ def main(tier, seed=0):
             total_points += len(cps)
             chunk = 40
             for i in range(0, len(cps), chunk):
-                jobs.append({"kind": "crash", "sc": pr["sc"], "crashes": cps[i:i + chunk]})
+                jobs.append({"kind": "crash", "sc": pr["sc"], "crashes": cps[i:i + chunk], "trace": pr.get("trace")})
         jobs.sort(key=lambda j: (j["sc"]["init"], j["sc"]["n"], j["sc"]["algo"], j["sc"]["id"]))
         jobs = [{"kind": "reject", "flavour": f, "side": sd} for f, sd in (("sync", "s"), ("astd", "a"), ("tok", "a"), ("astd", "s"))] + jobs
         fc = [sc for sc in scs if sc["init"] == "cold" and sc["n"] in (5, 4097) and (tier != "quick" or sc["entry"] in ("write_sync", "sw_declared", "write", "aw_plain"))]
@@ -351,8 +354,8 @@ def main(tier, seed=0):
     finally:
         pool.terminate()
         pool.join()
-    agg["extra"] = {"scenarios": len(scs), "crash_points": total_points,
-                    "steps_per_scenario": {"%s/%s/n=%d/%s" % (p["sc"]["entry"], p["sc"]["flavour"], p["sc"]["n"], p["sc"]["init"]): len(p["steps"]) for p in probes[:40]}}
+    agg["extra"].update({"scenarios": len(scs), "crash_points": total_points,
+                    "steps_per_scenario": {"%s/%s/n=%d/%s" % (p["sc"]["entry"], p["sc"]["flavour"], p["sc"]["n"], p["sc"]["init"]): len(p["steps"]) for p in probes[:40]}})
     return R.finish(PROP, tier, agg, merr, time.time() - t0, level="fault_enumeration",
                     rule="case = (writer scenario [entry point, flavour, size, cold/warm/address-present], kill point = entry of the k-th file-system system call, "
                          "torn length of that call if it is a write); distinct = distinct resulting directory trees (canonical form)",
@@ -372,3 +375,6 @@ def _acc(agg, r):
         agg["outcomes"][k] = agg["outcomes"].get(k, 0) + v
     if len(agg["samples"]) < 5:
         agg["samples"] += r["samples"][:1]
+    for k, v in r.get("extra", {}).items():
+        if isinstance(v, (int, float)):
+            agg["extra"][k] = agg["extra"].get(k, 0) + v
